@@ -125,6 +125,10 @@ deriving DecidableEq, Repr
 
 def Variant.fixed : Variant := ⟨true, true, true, true, false⟩
 def Variant.pinned : Variant := ⟨false, true, false, false, false⟩
+/-- mutant: AppendError without errorsMU -/
+def Variant.unlockedAppend : Variant := ⟨true, false, true, true, false⟩
+/-- mutant: the propagation goroutine acts on the parent -/
+def Variant.propToParent : Variant := ⟨true, true, true, true, true⟩
 
 /-- operations on the context of a scope -/
 inductive Op where
@@ -336,6 +340,9 @@ def PC.onCtx : PC → Option Nat
 `select`, or between the select and its decision, does not count: it has not called anything yet) -/
 def State.quiet (s : State) (c : Nat) : Prop :=
   ∀ (t : Nat) (pc : PC), s.threads[t]? = some pc → pc.onCtx ≠ some c
+
+/-- executable form of `quiet` -/
+def State.quietB (s : State) (c : Nat) : Bool := s.threads.all (fun pc => pc.onCtx != some c)
 
 /-- what the shared access that label `l` is about to perform observes (used by the driver only) -/
 inductive Event where
